@@ -12,6 +12,7 @@ import (
 	"go.etcd.io/bbolt"
 	"verif/harness/internal/core"
 	"verif/harness/internal/dump"
+	"verif/harness/internal/ql"
 	"verif/harness/internal/schema"
 )
 
@@ -33,7 +34,7 @@ func sibIndexProblems(tx *bbolt.Tx, sc *schema.Schema) (index []string, dangling
 		unique bool
 		path   []string // below the entity bucket
 	}
-	idxs := []idx{{"tags", false, []string{"tags"}}, {"acode", true, []string{"ka", "acode"}}, {"aroles", false, []string{"ka", "aroles"}}, {"bcode", true, []string{"kb", "bcode"}}, {"broles", false, []string{"kb", "broles"}}}
+	idxs := []idx{{"tags", false, []string{"tags"}}, {"acode", true, []string{"kids", "ka", "acode"}}, {"aroles", false, []string{"kids", "ka", "aroles"}}, {"bcode", true, []string{"kids", "kb", "bcode"}}, {"broles", false, []string{"kids", "kb", "broles"}}}
 	ids := sc.St("nodes").RawIds(tx)
 	hubs := map[string]bool{}
 	for _, h := range sc.St("hubs").RawIds(tx) {
@@ -105,7 +106,7 @@ func sibIndexProblems(tx *bbolt.Tx, sc *schema.Schema) (index []string, dangling
 	}
 	for _, id := range ids {
 		for _, kid := range []string{"ka", "kb"} {
-			if b := bpath(tx, "stores", "nodes", id, kid); b != nil {
+			if b := bpath(tx, "stores", "nodes", id, "kids", kid); b != nil {
 				if v := boltz.FieldToString(boltz.GetTypeAndValue(b.Get([]byte("owner")))); v != nil && *v != "" && !hubs[*v] {
 					dangling = append(dangling, fmt.Sprintf("nodes[%s].%s.owner = %s which does not exist", id, kid, *v))
 				}
@@ -121,8 +122,8 @@ func sibIndexProblems(tx *bbolt.Tx, sc *schema.Schema) (index []string, dangling
 func siblingScenario(c *core.Ctx, idx int, prop string) {
 	r := c.Rand()
 	hubs := &schema.StoreDef{Type: "hubs", BasePath: []string{"stores"},
-		Fields: []schema.Field{{Name: "nodes", Kind: schema.KList, FK: "nodes", Derived: true}, {Name: "bnodes", Kind: schema.KList, FK: "nodes/kb", Derived: true}},
-		Links:  []schema.LinkDef{{Field: "nodes", Target: "nodes", TargetField: "hubs"}, {Field: "bnodes", Target: "nodes/kb", TargetField: "bhubs"}}}
+		Fields: []schema.Field{{Name: "nodes", Kind: schema.KList, FK: "nodes", Derived: true}, {Name: "bnodes", Kind: schema.KList, FK: "nodes/kids/kb", Derived: true}},
+		Links:  []schema.LinkDef{{Field: "nodes", Target: "nodes", TargetField: "hubs"}, {Field: "bnodes", Target: "nodes/kids/kb", TargetField: "bhubs"}}}
 	// for C03 / C15 the parent store knows system entities: a delete from an ordinary context is refused at the parent
 	// level, and a caller which notes that and commits must find every index of every part untouched
 	sysNodes := prop == "C03" || prop == "C15"
@@ -130,11 +131,12 @@ func siblingScenario(c *core.Ctx, idx int, prop string) {
 		Fields: []schema.Field{{Name: "label", Kind: schema.KStr}, {Name: "tags", Kind: schema.KList}, {Name: "hubs", Kind: schema.KList, FK: "hubs", Derived: true}},
 		SetIdx: []string{"tags"},
 		Links:  []schema.LinkDef{{Field: "hubs", Target: "hubs", TargetField: "nodes"}}}
-	kidA := &schema.StoreDef{Type: "nodes", Parent: "nodes", ChildPath: []string{"ka"},
+	// the two sibling child stores live below one shared path element (kids/ka, kids/kb)
+	kidA := &schema.StoreDef{Type: "nodes", Parent: "nodes", ChildPath: []string{"kids", "ka"},
 		Fields: []schema.Field{{Name: "acode", Kind: schema.KStr}, {Name: "aroles", Kind: schema.KList}, {Name: "owner", Kind: schema.KStr, FK: "hubs"}},
 		Unique: []schema.UniqueDef{{Field: "acode", Nullable: true}}, SetIdx: []string{"aroles"},
 		FKs: []schema.FKDef{{Field: "owner", Target: "hubs", Kind: schema.FkConstraint, Nullable: true, Cascade: int(boltz.CascadeNone)}}}
-	kidB := &schema.StoreDef{Type: "nodes", Parent: "nodes", ChildPath: []string{"kb"}, Extended: idx%2 == 1,
+	kidB := &schema.StoreDef{Type: "nodes", Parent: "nodes", ChildPath: []string{"kids", "kb"}, Extended: idx%2 == 1,
 		// the second child store owns a link collection of its own (below its child path)
 		Fields: []schema.Field{{Name: "bcode", Kind: schema.KStr}, {Name: "broles", Kind: schema.KList}, {Name: "owner", Kind: schema.KStr, FK: "hubs"}, {Name: "bhubs", Kind: schema.KList, FK: "hubs", Derived: true}},
 		Links:  []schema.LinkDef{{Field: "bhubs", Target: "hubs", TargetField: "bnodes"}},
@@ -143,8 +145,8 @@ func siblingScenario(c *core.Ctx, idx int, prop string) {
 	if prop == "C09" {
 		// a foreign key constraint whose target is a child store: a reference must name an entity that has data in that
 		// child store, an entity of the parent store alone is no target
-		hubs.Fields = append(hubs.Fields, schema.Field{Name: "fav", Kind: schema.KStr, FK: "nodes/ka"})
-		hubs.FKs = append(hubs.FKs, schema.FKDef{Field: "fav", Target: "nodes/ka", Kind: schema.FkConstraint, Nullable: true, Cascade: int(boltz.CascadeNone)})
+		hubs.Fields = append(hubs.Fields, schema.Field{Name: "fav", Kind: schema.KStr, FK: "nodes/kids/ka"})
+		hubs.FKs = append(hubs.FKs, schema.FKDef{Field: "fav", Target: "nodes/kids/ka", Kind: schema.FkConstraint, Nullable: true, Cascade: int(boltz.CascadeNone)})
 	}
 	sc := schema.Build([]*schema.StoreDef{hubs, nodes, kidA, kidB})
 	path := c.TempFile("c06s")
@@ -154,7 +156,7 @@ func siblingScenario(c *core.Ctx, idx int, prop string) {
 		return
 	}
 	defer func() { _ = db.Close(); _ = os.Remove(path) }()
-	stores := map[string]*schema.St{"parent": sc.St("nodes"), "childA": sc.St("nodes/ka"), "childB": sc.St("nodes/kb")}
+	stores := map[string]*schema.St{"parent": sc.St("nodes"), "childA": sc.St("nodes/kids/ka"), "childB": sc.St("nodes/kids/kb")}
 	_ = db.Update(nil, func(ctx boltz.MutateContext) error {
 		for _, h := range []string{"hub-zz", "hub-own"} {
 			if err := sc.St("hubs").Store.Create(ctx, &schema.Ent{Id: h, Typ: "hubs", V: map[string]any{}}); err != nil {
@@ -197,7 +199,7 @@ func siblingScenario(c *core.Ctx, idx int, prop string) {
 		return ctx
 	}
 	has := func(tx *bbolt.Tx, id string) (parent, a, b bool) {
-		return stores["parent"].Store.IsEntityPresent(tx, id), bpath(tx, "stores", "nodes", id, "ka") != nil, bpath(tx, "stores", "nodes", id, "kb") != nil
+		return stores["parent"].Store.IsEntityPresent(tx, id), bpath(tx, "stores", "nodes", id, "kids", "ka") != nil, bpath(tx, "stores", "nodes", id, "kids", "kb") != nil
 	}
 	// C08: delete events per store (sync listeners: delivered by the time the transaction function has returned)
 	var evMu sync.Mutex
@@ -306,6 +308,15 @@ func siblingScenario(c *core.Ctx, idx int, prop string) {
 									c.Violationf(fmt.Sprintf("C15 siblings: lookup through %s panicked (entity has data in child B: %v, child B extended: %v)", via, b, kidB.Extended), info, "FindById(%s): %v", nid, rec)
 								}
 							}()
+							// presence through a store: the entity has data in that store (for the extended store too)
+							wantPresent := map[string]bool{"parent": p, "childA": p && a, "childB": p && b}[via]
+							if got := stores[via].Store.IsEntityPresent(tx, nid); got != wantPresent {
+								c.Violationf(fmt.Sprintf("C15 siblings: IsEntityPresent through %s: %v, expected %v", via, got, wantPresent), info, "IsEntityPresent(%s) (parent=%v, child A data=%v, child B data=%v)", nid, p, a, b)
+							}
+							ids1, n1, qerr := stores[via].Store.QueryIds(tx, "id = "+ql.Lit(nid))
+							if qerr != nil || (len(ids1) == 1) != want || (n1 == 1) != want {
+								c.Violationf(fmt.Sprintf("C15 siblings: query by id through %s: found=%v, expected %v", via, len(ids1) == 1, want), info, "QueryIds(id = %s) = %q count %d err=%v (parent=%v, child A data=%v, child B data=%v, child B extended=%v)", nid, ids1, n1, qerr, p, a, b, kidB.Extended)
+							}
 							e, found, err := stores[via].Store.FindById(tx, nid)
 							c.Eval()
 							c.Count("sibling_lookups", 1)
@@ -399,7 +410,7 @@ func c09SiblingSoundness(c *core.Ctx, sc *schema.Schema, db *boltz.DbImpl, state
 		clean = len(ixp) == 0 && len(dang) == 0
 		run := 0
 		for _, id := range sc.St("nodes").RawIds(tx) {
-			if bpath(tx, "stores", "nodes", id, "kb") == nil {
+			if bpath(tx, "stores", "nodes", id, "kids", "kb") == nil {
 				run++
 				if run > parentOnlyRun {
 					parentOnlyRun = run
@@ -416,7 +427,7 @@ func c09SiblingSoundness(c *core.Ctx, sc *schema.Schema, db *boltz.DbImpl, state
 	for _, mode := range []string{"view", "update"} {
 		var reps []string
 		run := func(ctx boltz.MutateContext) error {
-			for _, k := range []string{"hubs", "nodes", "nodes/ka", "nodes/kb"} {
+			for _, k := range []string{"hubs", "nodes", "nodes/kids/ka", "nodes/kids/kb"} {
 				k := k
 				if err := sc.St(k).Store.CheckIntegrity(ctx, false, func(err error, fixed bool) {
 					reps = append(reps, fmt.Sprintf("[%s] %v (fixed=%v)", k, err, fixed))
@@ -454,7 +465,7 @@ func c09SiblingSoundness(c *core.Ctx, sc *schema.Schema, db *boltz.DbImpl, state
 	var withA, withoutA string
 	_ = db.View(func(tx *bbolt.Tx) error {
 		for _, id := range sc.St("nodes").RawIds(tx) {
-			if bpath(tx, "stores", "nodes", id, "ka") != nil {
+			if bpath(tx, "stores", "nodes", id, "kids", "ka") != nil {
 				withA = id
 			} else {
 				withoutA = id
